@@ -11,6 +11,10 @@ def outcome(res, prop):
     if not c:
         return "not run"
     lines = " ".join(c.get("lines", []))
+    if res.get("demo_with_patch_rc") == 0 and c["rc"] == 0:
+        # the seeding agent's own demonstration passes with the patch on the current HEAD: a later fix: commit removed
+        # the precondition, the change no longer breaks the property (recorded in meta.json as `neutralised_by`)
+        return "no longer a breaking change at HEAD (demonstration passes with the patch)"
     if c["rc"] == 2:
         return "error"
     if "VIOLATION" in lines and "no-failing-input-found" in lines:
